@@ -170,6 +170,27 @@ func (dm *DMap) loadOrCreateFragment(part *partitions.Partition) (*fragment, err
 	return f, nil
 }
 
+// loadOrCreateLockedFragment returns the fragment with its lock held. The janitor wipes
+// an empty fragment out under the fragment's lock: a writer that loaded the fragment
+// before and locks it afterwards would write into a fragment that is not a part of the
+// partition anymore. Such a fragment is closed, load it again.
+func (dm *DMap) loadOrCreateLockedFragment(part *partitions.Partition) (*fragment, error) {
+	for {
+		f, err := dm.loadOrCreateFragment(part)
+		if err != nil {
+			return nil, err
+		}
+		f.Lock()
+		select {
+		case <-f.ctx.Done():
+			f.Unlock()
+			continue
+		default:
+		}
+		return f, nil
+	}
+}
+
 func (dm *DMap) loadFragment(part *partitions.Partition) (*fragment, error) {
 	f, ok := part.Map().Load(dm.fragmentName)
 	if !ok {
